@@ -94,6 +94,20 @@ BENIGN_KINDS["r8"] = """ 1. thread a context.Context (or a request-scoped logger
  9. replace a hand-rolled synchronisation or bookkeeping idiom by its equivalent: Lock/Unlock pairs by Lock + defer Unlock in a function that has a single exit region, a counter + loop by a WaitGroup-free errgroup-like helper of your own ONLY if ordering and error semantics are identical, manual slice removal by an equivalent append-splice helper, a boolean flag pair by one small state variable;
  10. add unit-test seams that are inert in production: package-level function variables defaulting to the real function (var osRemove = os.Remove) used at the call sites, or optional hooks that are nil in production and nil-checked."""
 
+BENIGN_KINDS["r9"] = """ Each of the ten patches COMBINES TWO of the following kinds in the same functions (choose ten different pairs; name the pair in meta.json "kind"):
+ A. thread a context.Context or a request id / reason string through two or three layers (context.Background() or a constant at the roots), used only for logging or checks that cannot fire;
+ B. typed constants / a small named type for magic strings and numbers at every comparison site, values unchanged;
+ C. %w wrapping plus errors.Is / errors.As at the comparison sites, same decisions;
+ D. an interface or a package-level function variable in front of a concrete dependency (test seam), production wiring 1:1;
+ E. control-flow restructuring with identical paths and order of effects (guard clauses, switch <-> if-chain, loop with flag -> helper that returns);
+ F. extraction of one or two helpers (or inlining a tiny helper into its only caller), including helpers that take the receiver's fields as parameters;
+ G. logging / metrics / latency measurement added around an operation (defer-based timing, counters on error branches) without moving any read of shared state across a lock boundary;
+ H. error messages reworded or enriched with context, no change in which calls fail or in any error value a caller compares or asserts;
+ I. Lock/Unlock pairs <-> Lock + defer Unlock where the function has a single exit region, or a lock region moved into a helper that covers exactly the same statements;
+ J. renaming of unexported identifiers, moving declarations to a new file of the same package, doc comments;
+ K. earlier, clearer refusal of an input that was ALREADY refused later in every state (nothing accepted before may be refused);
+ L. a configuration knob (environment variable / option) whose default keeps today's behaviour exactly."""
+
 def benign_prompt(g, rnd, wt, out):
     props = "\n".join(f"PROPERTY {pid}: {BYID[pid]['title']}\nStatement: {BYID[pid]['statement']}\nAnchors: {json.dumps(BYID[pid]['anchors'])}\n" for pid in GROUPS[g])
     return f"""You are helping evaluate the FALSE-ALARM rate of source-level checkers that guard a Go project. You get some semantic properties of the project and your own scratch git worktree. Your job: produce TEN independent source changes to the code these properties depend on that are ORDINARY MAINTENANCE WORK and leave every one of these properties intact. A correct checker must stay silent on every one of them. Unlike a pure refactoring they MAY change behaviour that no listed property talks about (a log line, a metric, an error message text, an extra read-only endpoint, a new field in a status answer, a clearer refusal of an input that was already refused), but every guarantee stated in the properties below must hold exactly as before in every execution.
